@@ -59,6 +59,18 @@ type Empty struct{}
 type EmbA struct {
 	EA int
 }
+
+// MyInt is also a fmt.Stringer (a value for embedded interface fields)
+func (m MyInt) String() string { return fmt.Sprint(int(m)) }
+
+// Audit is embedded into structs that have fields named like its methods: the generated accessors must win over the promoted ones
+type Audit struct {
+	Who string
+}
+
+func (a Audit) Name() string           { return "audit:" + a.Who }
+func (a Audit) WithName(n string) Audit { a.Who = n; return a }
+func (a Audit) Note() int              { return -1 }
 '''
 
 
@@ -86,7 +98,7 @@ def gen_shapes(rng, n, json_only=False, max_fields=9, tricky=True):
                     vis = "private"
                 else:
                     embedded_used = True
-                    fields.append(dict(vis="embedded", name="", typ=rng.choice(["EmbA", "Empty"]), tag="", kind="embedded"))
+                    fields.append(dict(vis="embedded", name="", typ=rng.choice(["EmbA", "Empty", "*EmbA", "fmt.Stringer", "MyStr", "Audit"]), tag="", kind="embedded"))
                     continue
             kind = rng.choice(kinds)
             typ = rng.choice(KINDS[kind][0])
@@ -102,7 +114,7 @@ def gen_shapes(rng, n, json_only=False, max_fields=9, tricky=True):
             if vis != "private":
                 tag = ""
             fields.append(dict(vis=vis, name=name, typ=typ, kind=kind, tag=(tag % ("j" + name.lower().strip("_"))) if tag else ""))
-        if not any(f["vis"] in ("private", "public") or f["typ"] == "EmbA" for f in fields):
+        if not any(f["vis"] in ("private", "public") or (f["vis"] == "embedded" and f["typ"] != "Empty") for f in fields):
             fields.append(dict(vis="private", name="a99", typ="int", kind="basic", tag=""))
         safe = all(f["kind"] == "embedded" and False or KINDS.get(f["kind"], (None, False))[1] for f in fields if f["vis"] != "underscore") \
             and not any(f["typ"] == "map[int]string" for f in fields)
@@ -143,6 +155,14 @@ def special_shapes():
         dict(name="Collide", fields=[dict(vis="private", name="o", typ="fp.Option[int]", kind="option", tag=""), dict(vis="private", name="k", typ="option.Kind", kind="userpkg", tag=""),
                                      dict(vis="private", name="m", typ="as.Mark", kind="userpkg", tag=""), dict(vis="private", name="ok", typ="fp.Option[option.Kind]", kind="option", tag="")],
              json=True, labelled=True, tparams=[]),
+        # embedded fields that are not structs: a pointer, an interface, a named string
+        dict(name="Emb2", json=False, labelled=True, tparams=[],
+             fields=[dict(vis="embedded", name="", typ="*EmbA", kind="embedded", tag=""), dict(vis="embedded", name="", typ="fmt.Stringer", kind="embedded", tag=""),
+                     dict(vis="embedded", name="", typ="MyStr", kind="embedded", tag=""), dict(vis="private", name="a", typ="int", kind="basic", tag="")]),
+        # fields named like methods promoted from an embedded type
+        dict(name="Promo", json=False, labelled=False, tparams=[],
+             fields=[dict(vis="embedded", name="", typ="Audit", kind="embedded", tag=""), dict(vis="private", name="name", typ="string", kind="basic", tag=""),
+                     dict(vis="private", name="note", typ="int", kind="basic", tag=""), dict(vis="private", name="who", typ="fp.Option[string]", kind="option", tag="")]),
         # no field is a constructor argument (all Option / pointer)
         dict(name="ReqNone", anns=["Value", "RequiredArgsConstructor"], json=False, labelled=False, tparams=[],
              fields=[dict(vis="private", name="o", typ="fp.Option[string]", kind="option", tag=""), dict(vis="private", name="p", typ="*int", kind="pointer", tag="")]),
@@ -200,7 +220,8 @@ def go_source(pkg, shapes):
             twin = "func(v any) any { x := v.(%s); return vTwin%s{%s} }" % (sh["name"], sh["name"], ", ".join(conv))
         reg.append("\t{v: %s{}, json: %s, lab: %s, anns: []string{%s}, twin: %s}," % (inst, "true" if sh.get("json") else "false", "true" if sh.get("labelled") else "false",
                                                                                   ", ".join('"%s"' % a for a in anns), twin))
-    registry = "package %s\n\nvar vRegistry = []vEntry{\n%s\n}\n" % (pkg, "\n".join(reg))
+    registry = ("package %s\n\n// values for interface-typed fields\nvar vIfaceValues = []any{MyInt(3), MyInt(7), MyInt(0)}\n\nvar vRegistry = []vEntry{\n%s\n}\n"
+                % (pkg, "\n".join(reg)))
     return "\n".join(out), registry
 
 
